@@ -6,13 +6,13 @@ CFG = dict(
     sysl_binary=True,
     trusted=[
         'the ANTLR 4 Go runtime and the generated lexer/parser are not modelled: their behaviour on a file is an arbitrary value (ok / error / panic) of the pipeline model; that they TERMINATE is assumed and only bounded by the harness deadline (20 s per case)',
-        'stages the repository does not run under a recover (file reader, foreign-format importers, lint + postProcess) are assumed not to panic - an explicit hypothesis of C01_never_crashes, monitored by the harness on every case',
+        'stages the repository does not run under a recover (file reader, foreign-format importers) are assumed not to panic - an explicit hypothesis of C01_never_crashes, monitored by the harness on every case; lint + postProcess run under a recover since 93fe1b6 (g_post in the Guards table)',
         'the Guards translator decides what counts as "runs under a deferred recover that sets the named error result" and "error tested and returned"',
     ],
     assumptions=['termination of the generated parser is observed (deadline), not proved'],
 )
 TEXT = dict(
     level='Theorems in Coq over a stage model of Parser.Parse/collectSpecs/parseSpecs/main2: for every import closure and every behaviour (ok/error/panic) of the generated parser and of both listener walks, the guard structure of the CURRENT source (Gen/Guards.v, regenerated each run: which stages run under a recover, whether each stage error is tested and returned, the exit codes) never lets a panic out, maps every error to status 1 or 2, and yields a model only if every stage of every file succeeded; plus an exact, proved predictor of which field declarations make the listener panic (all primitives x size/array specs x numbers of any length). Tied to the code by compiling ~2 000 (quick) / ~20 000 (thorough) hostile inputs with the real parser in a worker subprocess - crash-family corpus, bounded-exhaustive field forms, token/line/byte mutants of the 422-file corpus, generated odd specs, import closures, random bytes, and the real binary for exit statuses - judged directly (never a panic, hang or zero status on error) and compared in Coq with the predictor and the pipeline model.',
-    note='Trusted: Coq kernel + vm_compute, the Guards translator, the harness. Not modelled: ANTLR runtime and generated parser (termination assumed, bounded by a deadline), reader, importers, lint/postProcess (assumed not to panic; monitored). The two hand-written loops on the compile path are proved to end and re-exported here: C01_indent_loop_terminates / C01_lexer_filter_terminates (Front/Indent, built for C03) and C01_collector_terminates (Imports/Faults, built for C05/C06: every schedule, every fault set, every finite import graph).',
+    note='Trusted: Coq kernel + vm_compute, the Guards translator, the harness. Not modelled: ANTLR runtime and generated parser (termination assumed, bounded by a deadline), reader, importers (assumed not to panic; monitored); lint/postProcess behaviour is arbitrary (ok/error/panic) and guarded. The two hand-written loops on the compile path are proved to end and re-exported here: C01_indent_loop_terminates / C01_lexer_filter_terminates (Front/Indent, built for C03) and C01_collector_terminates (Imports/Faults, built for C05/C06: every schedule, every fault set, every finite import graph).',
     technique='Coq proof over pipeline stage model + regenerated guard table + differential compile of hostile inputs',
 )
